@@ -54,3 +54,8 @@ func verif_HTTPProxy_Auth(hp *HTTPProxy, req *http.Request) {
 		verif.Ensures(verif.CallCount("strings.SplitN") == 2 && len(pair) == 2 && pair[0] == u && pair[1] == p, "accepted_only_with_exact_user_and_password")
 	}
 }
+
+// ---------------------------------------------------------------- C16: the plugin listener's closed flag
+
+//verif:guarded Listener mu closed
+//verif:sweep-type Listener props=C16 kinds=lock
